@@ -443,6 +443,12 @@ func (w *Writer) dumpObjectIndex() error {
 		}
 		last = k
 	}
+	if maxCommon+1 >= 1<<5 {
+		// The footer has 5 bits for the abbreviated object ID
+		// length. Object IDs that only differ beyond that
+		// cannot be indexed; the index is optional, so skip it.
+		return nil
+	}
 	w.Stats.ObjectIDLen = maxCommon + 1
 
 	w.blockWriter = w.newBlockWriter(blockTypeObj)
